@@ -644,4 +644,413 @@ Section WithMatch.
       + destruct (condition_excl _ Hc) as [Hx _]. rewrite Hx. tauto.
       + destruct (condition_excl _ Hc) as [Hx _]. rewrite Hx. tauto.
   Qed.
+
+  (* -------------------------------------------------------------- *)
+  (* the second half of Project (project.go:60-119) *)
+
+  Lemma project_state_unfold st d r :
+    project_state st d = Ok r ->
+    exists r1 r2,
+      ((ps_include st <> [] /\ ps_exclude st = [] /\
+        exists old r0, Put [] "_id" (Get d "_id") false = Ok (old, r0) /\
+                       copy_included d (ps_skip st) (ps_include st) r0 = Ok r1)
+       \/ (ps_include st = [] /\ r1 = apply_exclusions (ps_exclude st) d)) /\
+      apply_merges (ps_merge st) r1 = Ok r2 /\
+      r = (if ps_hide_id st then snd (Unset r2 "_id") else r2).
+  Proof.
+    unfold project_state. destruct (ps_include st) as [|i0 il] eqn:Ei.
+    - intro H. apply bind_ok in H. destruct H as [r1 [H1 H]].
+      apply bind_ok in H. destruct H as [r2 [H2 H]]. inversion H1. inversion H. subst.
+      exists (apply_exclusions (ps_exclude st) d), r2.
+      split; [right; split; reflexivity|]. split; [destruct (ps_exclude st); exact H2|reflexivity].
+    - destruct (ps_exclude st) as [|e0 el] eqn:Ee; [|discriminate].
+      intro H. apply bind_ok in H. destruct H as [r1 [H1 H]].
+      apply bind_ok in H. destruct H as [r2 [H2 H]]. inversion H. subst.
+      apply bind_ok in H1. destruct H1 as [[old r0] [H0 H1]].
+      exists r1, r2. split; [|split; [exact H2|reflexivity]].
+      left. split; [discriminate|]. split; [reflexivity|]. eauto.
+  Qed.
+
+  Lemma Put_ok_not_missing d ps v old d' : Put d ps v false = Ok (old, d') -> is_missing v = false.
+  Proof. unfold Put, put_path. destruct (is_missing v); [discriminate|reflexivity]. Qed.
+
+  Lemma kpath_id : kpath_str "_id" = true.
+  Proof. reflexivity. Qed.
+
+  Lemma split_id : split_path "_id" = ["_id"].
+  Proof. reflexivity. Qed.
+
+  (* line 74: the fresh result holding _id only *)
+  Lemma put_id d old r0 :
+    Put [] "_id" (Get d "_id") false = Ok (old, r0) ->
+    r0 = [("_id", Get d "_id")] /\ lookup d "_id" = Some (Get d "_id") /\ is_missing (Get d "_id") = false.
+  Proof.
+    intro H. pose proof (Put_ok_not_missing _ _ _ _ _ H) as Hm.
+    pose proof (Put_kpath_ok _ _ _ _ _ kpath_id Hm H) as Hd.
+    rewrite split_id in Hd. cbn in Hd. inversion Hd. split; [reflexivity|]. split; [|exact Hm].
+    rewrite (Get_kpath d "_id" kpath_id), split_id in *. cbn [dget] in *.
+    destruct (lookup d "_id"); [reflexivity|discriminate].
+  Qed.
+
+  (* the fresh result agrees with the source on every path below _id and on
+     every path the source does not have *)
+  Lemma id_doc_agree d q :
+    lookup d "_id" = Some (Get d "_id") ->
+    (hd "" q = "_id" \/ dget (VDoc d) q = VMissing) -> q <> [] ->
+    dget (VDoc [("_id", Get d "_id")]) q = dget (VDoc d) q.
+  Proof.
+    intros Hl Hq Hne. destruct q as [|k rest]; [congruence|].
+    cbn [dget lookup hd] in *. destruct (String.eqb "_id" k) eqn:E.
+    - apply String.eqb_eq in E. subst k. rewrite Hl. reflexivity.
+    - apply String.eqb_neq in E. destruct Hq as [Hq|Hq]; [congruence|]. symmetry. exact Hq.
+  Qed.
+
+  Lemma unrelated_id q : q <> [] -> hd "" q <> "_id" -> unrelated ["_id"] q.
+  Proof.
+    intros Hne Hr. destruct q as [|k rest]; [congruence|]. cbn [hd] in Hr.
+    split; cbn [is_prefix].
+    - destruct (String.eqb "_id" k) eqn:E; [apply String.eqb_eq in E; congruence|reflexivity].
+    - destruct (String.eqb k "_id") eqn:E; [apply String.eqb_eq in E; congruence|reflexivity].
+  Qed.
+
+  (* lines 115-117 on paths not below _id *)
+  Lemma hide_id_get (hide : bool) r2 q :
+    q <> [] -> (hide = true -> hd "" q <> "_id") ->
+    dget (VDoc (if hide then snd (Unset r2 "_id") else r2)) q = dget (VDoc r2) q.
+  Proof.
+    intros Hne Hr. destruct hide; [|reflexivity].
+    rewrite <- (Unset_kpath_doc r2 "_id" kpath_id), split_id.
+    apply dget_ddel_unrelated. apply unrelated_id; [exact Hne|apply Hr; reflexivity].
+  Qed.
+
+  Lemma root_hd ps : root ps = hd "" (split_path ps).
+  Proof. reflexivity. Qed.
+
+  (* -------------------------------------------------------------- *)
+  (* C14: mixing inclusion and exclusion is an error *)
+
+  Lemma process_include_mono st d pr st' :
+    process pctx st d pr "" true = Ok st' -> forall p, In p (ps_include st) -> In p (ps_include st').
+  Proof.
+    revert st. induction pr as [|[k v] t IH]; intros st H p Hp.
+    - cbn [process] in H. inversion H. subst. exact Hp.
+    - destruct (process_cons _ _ _ _ _ H) as [st1 [H1 H2]]. apply (IH _ H2).
+      destruct (process_expression_ok _ _ _ _ _ H1) as [[_ Hs]|[_ [_ [exps [_ Hg]]]]].
+      + inversion Hs; subst st1; cbn [add_include set_hide_id add_exclude ps_include];
+          [apply in_or_app; left; exact Hp|exact Hp|exact Hp].
+      + destruct (g_incl _ _ _ _ Hg) as [n [Hn _]]. rewrite Hn. apply in_or_app. left. exact Hp.
+  Qed.
+
+  Lemma process_sees_inclusion st d pr st' k v :
+    process pctx st d pr "" true = Ok st' -> In (k, v) pr -> is_inclusion_value v = true ->
+    In k (ps_include st').
+  Proof.
+    revert st. induction pr as [|[k0 v0] t IH]; intros st H Hin Hv; [destruct Hin|].
+    destruct (process_cons _ _ _ _ _ H) as [st1 [H1 H2]].
+    destruct Hin as [E|Hin]; [|exact (IH _ H2 Hin Hv)].
+    inversion E. subst k0 v0. apply (process_include_mono _ _ _ _ H2).
+    destruct (process_expression_ok _ _ _ _ _ H1) as [[_ Hs]|[_ [_ [exps [Hd _]]]]].
+    - inversion Hs as [Hc|Hc Hk|Hc Hk]; subst st1.
+      + cbn [add_include ps_include]. apply in_or_app. right. left. reflexivity.
+      + destruct (condition_excl _ Hc). congruence.
+      + destruct (condition_excl _ Hc). congruence.
+    - subst v. discriminate.
+  Qed.
+
+  Lemma process_sees_exclusion st d pr st' k v :
+    process pctx st d pr "" true = Ok st' -> In (k, v) pr -> is_exclusion_value v = true ->
+    k <> "_id" -> In k (ps_exclude st').
+  Proof.
+    intros H Hin Hv Hk. rewrite (proj1 (process_excl_hide _ _ _ _ H)).
+    apply in_or_app. right. unfold excluded_keys.
+    change k with (fst (k, v)). apply in_map. apply filter_In. split; [exact Hin|].
+    cbn [fst snd]. rewrite Hv. apply String.eqb_neq in Hk. rewrite Hk.
+    unfold plain_entry.
+    assert (Ho : operator_entry (k, v) = false).
+    { unfold is_exclusion_value in Hv. destruct (condition_value v) as [b| | | |] eqn:Ec; try discriminate.
+      exact (operator_entry_condition k v b Ec). }
+    rewrite Ho. reflexivity.
+  Qed.
+
+  Theorem mix_is_error d pr k1 v1 k2 v2 :
+    In (k1, v1) pr -> is_inclusion_value v1 = true ->
+    In (k2, v2) pr -> is_exclusion_value v2 = true -> k2 <> "_id" ->
+    forall r, Proj d pr <> Ok r.
+  Proof.
+    intros Hi1 Hv1 Hi2 Hv2 Hk2 r H. unfold project_with, project_process in H.
+    apply bind_ok in H. destruct H as [st [Hp Hs]].
+    pose proof (process_sees_inclusion _ _ _ _ _ _ Hp Hi1 Hv1) as H1.
+    pose proof (process_sees_exclusion _ _ _ _ _ _ Hp Hi2 Hv2 Hk2) as H2.
+    unfold project_state in Hs.
+    destruct (ps_include st); [destruct H1|]. destruct (ps_exclude st); [destruct H2|]. discriminate.
+  Qed.
+
+  (* $elemMatch counts as an inclusion *)
+  Theorem mix_is_error_elem_match d pr k1 q k2 v2 :
+    In (k1, VDoc [("$elemMatch", VDoc q)]) pr ->
+    In (k2, v2) pr -> is_exclusion_value v2 = true -> k2 <> "_id" ->
+    forall r, Proj d pr <> Ok r.
+  Proof.
+    intros Hi1 Hi2 Hv2 Hk2 r H. unfold project_with, project_process in H.
+    apply bind_ok in H. destruct H as [st [Hp Hs]].
+    pose proof (process_sees_exclusion _ _ _ _ _ _ Hp Hi2 Hv2 Hk2) as H2.
+    assert (H1 : In k1 (ps_include st)).
+    { clear - Hp Hi1. revert Hp. generalize pstate0 as st0. induction pr as [|[k0 v0] t IH]; intros st0 Hp; [destruct Hi1|].
+      destruct (process_cons _ _ _ _ _ Hp) as [st1 [H1 H2]].
+      destruct Hi1 as [E|Hin]; [|exact (IH Hin _ H2)].
+      inversion E. subst k0 v0. apply (process_include_mono _ _ _ _ H2).
+      destruct (is_operator_key k1) eqn:Hk; [rewrite pe_root_operator in H1 by exact Hk; discriminate|].
+      rewrite pe_single_op in H1 by (exact Hk || reflexivity).
+      rewrite op_lookup_operator in H1 by reflexivity. cbn [String.eqb Ascii.eqb Bool.eqb] in H1.
+      destruct (project_elem_match_ok _ _ _ _ _ _ H1) as [E1|[item E1]]; subst st1;
+        cbn [set_merge add_skip add_include ps_include]; apply in_or_app; right; left; reflexivity. }
+    unfold project_state in Hs.
+    destruct (ps_include st); [destruct H1|]. destruct (ps_exclude st); [destruct H2|]. discriminate.
+  Qed.
+
+  (* -------------------------------------------------------------- *)
+  (* C14: inclusion *)
+
+  (* every entry is a plain condition on a key path *)
+  Definition plain_projection (pr : doc) : Prop :=
+    forallb plain_entry pr = true /\ all_kpaths (map fst pr).
+
+  Lemma included_keys_kpaths pr : all_kpaths (map fst pr) -> all_kpaths (included_keys pr).
+  Proof.
+    intros H p Hp. apply H. unfold included_keys in Hp.
+    apply in_map_iff in Hp. destruct Hp as [e [He Hf]]. apply filter_In in Hf.
+    apply in_map_iff. exists e. tauto.
+  Qed.
+
+  Lemma excluded_keys_kpaths pr : all_kpaths (map fst pr) -> all_kpaths (excluded_keys pr).
+  Proof.
+    intros H p Hp. apply H. unfold excluded_keys in Hp.
+    apply in_map_iff in Hp. destruct Hp as [e [He Hf]]. apply filter_In in Hf.
+    apply in_map_iff. exists e. tauto.
+  Qed.
+
+  Definition present (d : doc) (p : string) : bool := negb (is_missing (Get d p)).
+
+  Fixpoint remove_str (k : string) (l : list string) : list string :=
+    match l with
+    | [] => []
+    | x :: t => if String.eqb x k then t else x :: remove_str k t
+    end.
+
+  Lemma keys_remove_first d k : map fst (remove_first d k) = remove_str k (map fst d).
+  Proof.
+    induction d as [|[k' y] d IH]; [reflexivity|].
+    cbn [remove_first map fst remove_str]. destruct (String.eqb k' k); [reflexivity|].
+    cbn [map fst]. rewrite IH. reflexivity.
+  Qed.
+
+  Lemma unset_id_remove r : snd (Unset r "_id") = remove_first r "_id".
+  Proof.
+    pose proof (Unset_kpath_doc r "_id" kpath_id) as H. rewrite split_id, ddel_last in H.
+    inversion H. reflexivity.
+  Qed.
+
+  (* the shape of an inclusion run *)
+  Lemma inclusion_run d pr r :
+    plain_projection pr -> included_keys pr <> [] -> Proj d pr = Ok r ->
+    exists r1,
+      lookup d "_id" = Some (Get d "_id") /\ is_missing (Get d "_id") = false /\
+      copy_included d [] (included_keys pr) [("_id", Get d "_id")] = Ok r1 /\
+      r = (if hides_id pr then remove_first r1 "_id" else r1).
+  Proof.
+    intros [Hpl Hk] Hne H. unfold project_with, project_process in H.
+    apply bind_ok in H. destruct H as [st [Hp Hs]].
+    destruct (process_plain _ _ _ _ Hpl Hp) as [Hi [Hm Hsk]].
+    destruct (process_excl_hide _ _ _ _ Hp) as [He Hh].
+    cbn [pstate0 ps_include ps_merge ps_skip ps_exclude ps_hide_id app orb] in *.
+    destruct (project_state_unfold _ _ _ Hs) as [r1 [r2 [Hb [Hmg Hr]]]].
+    rewrite Hm in Hmg. cbn [apply_merges] in Hmg. inversion Hmg. subst r2.
+    destruct Hb as [[_ [_ [old [r0 [H0 H1]]]]]|[Hc _]]; [|congruence].
+    destruct (put_id _ _ _ H0) as [Hr0 [Hl Hmi]]. subst r0.
+    rewrite Hi, Hsk in H1. exists r1. rewrite Hh, unset_id_remove in Hr. tauto.
+  Qed.
+
+  Theorem inclusion_spec d pr r :
+    plain_projection pr -> included_keys pr <> [] -> Proj d pr = Ok r ->
+    (* only _id and the roots of the included paths *)
+    (forall k, In k (map fst r) -> k = "_id" \/ exists p, In p (included_keys pr) /\ root p = k) /\
+    (* every included path holds the stored value *)
+    (forall p, In p (included_keys pr) -> (hides_id pr = true -> root p <> "_id") -> Get r p = Get d p) /\
+    (* _id is present unless hidden *)
+    (hides_id pr = false -> Get r "_id" = Get d "_id" /\ is_missing (Get d "_id") = false) /\
+    (hides_id pr = true -> lookup r "_id" = None) /\
+    (* field order: _id, then the roots of the included paths that exist, in
+       the order of the projection *)
+    map fst r = (if hides_id pr then remove_str "_id" else fun l => l)
+                  (add_keys ["_id"] (map root (filter (present d) (included_keys pr)))).
+  Proof.
+    intros Hpp Hne H. destruct (inclusion_run _ _ _ Hpp Hne H) as [r1 [Hl [Hmi [Hc Hr]]]].
+    pose proof (included_keys_kpaths pr (proj2 Hpp)) as Hk.
+    pose proof (copy_included_keys _ _ _ _ _ Hk Hc) as Hkeys.
+    assert (Hcopied : filter (copied d []) (included_keys pr) = filter (present d) (included_keys pr)).
+    { apply filter_ext. intro p. reflexivity. }
+    rewrite Hcopied in Hkeys. cbn [map fst] in Hkeys.
+    assert (Hkeys_r : map fst r = (if hides_id pr then remove_str "_id" else fun l => l) (map fst r1)).
+    { subst r. destruct (hides_id pr); [apply keys_remove_first|reflexivity]. }
+    split; [|split; [|split; [|split]]].
+    - intros k Hin. rewrite Hkeys_r in Hin.
+      assert (Hin1 : In k (map fst r1)).
+      { destruct (hides_id pr); [|exact Hin].
+        clear - Hin. induction (map fst r1) as [|x t IH]; cbn [remove_str In] in *; [tauto|].
+        destruct (String.eqb x "_id"); cbn [In] in *; tauto. }
+      rewrite Hkeys in Hin1. destruct (add_keys_in _ _ _ Hin1) as [[E|[]]|Hin2]; [left; congruence|].
+      right. apply in_map_iff in Hin2. destruct Hin2 as [p [Hp Hf]]. apply filter_In in Hf.
+      exists p. tauto.
+    - intros p Hp Hroot.
+      pose proof (Hk p Hp) as Hkp.
+      assert (Hg1 : Get r1 p = Get d p).
+      { apply (copy_included_get d [] (included_keys pr) _ r1 p Hk Hc Hp eq_refl).
+        intro Hm. apply id_doc_agree; [exact Hl| |apply split_path_nonempty].
+        right. rewrite <- (Get_kpath d p Hkp). destruct (Get d p); try discriminate. reflexivity. }
+      rewrite <- Hg1. rewrite (Get_kpath r p Hkp), (Get_kpath r1 p Hkp). subst r.
+      rewrite <- unset_id_remove. apply hide_id_get; [apply split_path_nonempty|exact Hroot].
+    - intro Hh. split; [|exact Hmi]. rewrite Hh in Hr. subst r.
+      rewrite (Get_kpath r1 "_id" kpath_id), (Get_kpath d "_id" kpath_id).
+      apply (copy_included_agree d [] (included_keys pr) _ r1 _ Hk Hc).
+      rewrite split_id. apply id_doc_agree; [exact Hl|left; reflexivity|discriminate].
+    - intro Hh. rewrite Hh in Hr. subst r. apply lookup_remove_same.
+      rewrite Hkeys. apply add_keys_nodup. constructor; [tauto|constructor].
+    - rewrite Hkeys_r, Hkeys. reflexivity.
+  Qed.
+
+  (* -------------------------------------------------------------- *)
+  (* C14: exclusion *)
+
+  Lemma exclusion_run d pr r :
+    plain_projection pr -> included_keys pr = [] -> Proj d pr = Ok r ->
+    r = (if hides_id pr then remove_first (apply_exclusions (excluded_keys pr) d) "_id"
+         else apply_exclusions (excluded_keys pr) d).
+  Proof.
+    intros [Hpl Hk] Hne H. unfold project_with, project_process in H.
+    apply bind_ok in H. destruct H as [st [Hp Hs]].
+    destruct (process_plain _ _ _ _ Hpl Hp) as [Hi [Hm Hsk]].
+    destruct (process_excl_hide _ _ _ _ Hp) as [He Hh].
+    cbn [pstate0 ps_include ps_merge ps_skip ps_exclude ps_hide_id app orb] in *.
+    destruct (project_state_unfold _ _ _ Hs) as [r1 [r2 [Hb [Hmg Hr]]]].
+    rewrite Hm in Hmg. cbn [apply_merges] in Hmg. inversion Hmg. subst r2.
+    destruct Hb as [[Hc _]|[_ Hr1]]; [congruence|].
+    rewrite Hh, unset_id_remove in Hr. rewrite He in Hr1. subst r1. exact Hr.
+  Qed.
+
+  (* an exclusion never fails *)
+  Theorem exclusion_total d pr :
+    plain_projection pr -> included_keys pr = [] ->
+    (forall e, In e pr -> is_exclusion_value (snd e) = true /\ is_operator_key (fst e) = false) ->
+    exists r, Proj d pr = Ok r.
+  Proof.
+    intros [Hpl Hk] Hne Hall. unfold project_with, project_process.
+    assert (Hp : forall st, exists st', process pctx st d pr "" true = Ok st' /\ ps_include st' = ps_include st /\ ps_merge st' = ps_merge st).
+    { clear Hk Hne. induction pr as [|[k v] t IH]; intro st.
+      - exists st. cbn [process]. tauto.
+      - cbn [forallb] in Hpl. apply andb_prop in Hpl. destruct Hpl as [Hp0 Hpt].
+        destruct (Hall (k, v) (or_introl eq_refl)) as [Hv Hk]. cbn [snd fst] in Hv, Hk.
+        unfold is_exclusion_value in Hv. destruct (condition_value v) as [[|]| | | |] eqn:Ec; try discriminate.
+        unfold plain_entry in Hp0. apply negb_true_iff in Hp0.
+        cbn [process]. rewrite (pe_plain st d k v Hk Hp0). unfold project_condition. rewrite Ec. cbn [bind].
+        destruct (String.eqb k "_id").
+        + destruct (IH Hpt (fun e He => Hall e (or_intror He)) (set_hide_id st)) as [st' [H1 [H2 H3]]].
+          exists st'. tauto.
+        + destruct (IH Hpt (fun e He => Hall e (or_intror He)) (add_exclude st k)) as [st' [H1 [H2 H3]]].
+          exists st'. tauto. }
+    destruct (Hp pstate0) as [st' [H1 [H2 H3]]]. rewrite H1. cbn [bind].
+    unfold project_state. cbn [pstate0 ps_include ps_merge] in H2, H3. rewrite H2, H3.
+    cbn [apply_merges bind]. destruct (ps_exclude st'); eauto.
+  Qed.
+
+  Lemma exclusion_fold d pr :
+    all_kpaths (map fst pr) ->
+    VDoc (apply_exclusions (excluded_keys pr) d) = ddel_all (excluded_keys pr) (VDoc d).
+  Proof. intro H. apply apply_exclusions_fold. apply excluded_keys_kpaths. exact H. Qed.
+
+  Lemma remove_id_ddel r : VDoc (remove_first r "_id") = ddel (VDoc r) ["_id"].
+  Proof. reflexivity. Qed.
+
+  Theorem exclusion_spec d pr r :
+    plain_projection pr -> included_keys pr = [] -> nodup_keys (VDoc d) = true ->
+    Proj d pr = Ok r ->
+    (* every excluded path is absent *)
+    (forall p, In p (excluded_keys pr) -> Get r p = VMissing) /\
+    (hides_id pr = true -> lookup r "_id" = None) /\
+    (* every key path unrelated to the excluded ones holds the stored value *)
+    (forall q, kpath_str q = true ->
+               (forall p, In p (excluded_keys pr) -> unrelated (split_path p) (split_path q)) ->
+               (hides_id pr = true -> root q <> "_id") ->
+               Get r q = Get d q) /\
+    (* r is d with fields deleted; order preserved at every level *)
+    pruned (VDoc r) (VDoc d).
+  Proof.
+    intros Hpp Hne Hnd H. pose proof (exclusion_run _ _ _ Hpp Hne H) as Hr.
+    pose proof (exclusion_fold d pr (proj2 Hpp)) as Hf.
+    set (r1 := apply_exclusions (excluded_keys pr) d) in *.
+    assert (Hnd1 : nodup_keys (VDoc r1) = true) by (rewrite Hf; apply ddel_all_nodup; exact Hnd).
+    split; [|split; [|split]].
+    - intros p Hp. pose proof (excluded_keys_kpaths pr (proj2 Hpp) p Hp) as Hkp.
+      rewrite (Get_kpath r p Hkp).
+      assert (H1 : dget (VDoc r1) (split_path p) = VMissing).
+      { rewrite Hf. rewrite <- (app_nil_r (split_path p)). apply ddel_all_excluded; assumption. }
+      subst r. destruct (hides_id pr); [|exact H1].
+      rewrite remove_id_ddel. apply dget_ddel_missing; assumption.
+    - intro Hh. rewrite Hh in Hr. subst r. apply lookup_remove_same.
+      exact (proj1 (nodup_keys_doc r1 Hnd1)).
+    - intros q Hkq Hu Hroot. rewrite (Get_kpath r q Hkq), (Get_kpath d q Hkq).
+      transitivity (dget (VDoc r1) (split_path q)).
+      + subst r. rewrite <- unset_id_remove. apply hide_id_get; [apply split_path_nonempty|exact Hroot].
+      + rewrite Hf. apply ddel_all_unrelated. exact Hu.
+    - assert (Hp1 : pruned (VDoc r1) (VDoc d)) by (rewrite Hf; apply ddel_all_pruned, pruned_refl).
+      subst r. destruct (hides_id pr); [|exact Hp1].
+      rewrite remove_id_ddel. apply pruned_ddel. exact Hp1.
+  Qed.
+
+  (* -------------------------------------------------------------- *)
+  (* C14: every value in the result is the stored value *)
+
+  Lemma in_remove_first d k k0 v0 : In (k0, v0) (remove_first d k) -> In (k0, v0) d.
+  Proof.
+    induction d as [|[k' y] d IH]; cbn [remove_first In]; [tauto|].
+    destruct (String.eqb k' k); cbn [In]; tauto.
+  Qed.
+
+  Lemma sub_remove_first r d k :
+    sub (VDoc r) (VDoc d) -> nodup_keys (VDoc d) = true -> sub (VDoc (remove_first r k)) (VDoc d).
+  Proof.
+    intros Hs Hnd. apply sub_doc. intros k0 v0 Hin. apply in_remove_first in Hin.
+    inversion Hs as [|rf df Hf]; subst.
+    - exists v0. split; [|apply sub_refl].
+      apply in_lookup_nodup; [exact (proj1 (nodup_keys_doc d Hnd))|exact Hin].
+    - exact (Hf _ _ Hin).
+  Qed.
+
+  Theorem projected_values_are_stored d pr r :
+    plain_projection pr -> nodup_keys (VDoc d) = true -> Proj d pr = Ok r ->
+    sub (VDoc r) (VDoc d).
+  Proof.
+    intros Hpp Hnd H. destruct (included_keys pr) as [|i0 il] eqn:Ei.
+    - apply pruned_sub; [exact Hnd|].
+      exact (proj2 (proj2 (proj2 (exclusion_spec _ _ _ Hpp Ei Hnd H)))).
+    - assert (Hne : included_keys pr <> []) by (rewrite Ei; discriminate).
+      destruct (inclusion_run _ _ _ Hpp Hne H) as [r1 [Hl [Hmi [Hc Hr]]]].
+      assert (Hs1 : sub (VDoc r1) (VDoc d)).
+      { apply (copy_included_sub d [] (included_keys pr) _ r1 (included_keys_kpaths pr (proj2 Hpp)) Hc).
+        apply sub_doc. intros k v [E|[]]. inversion E. subst. exists (Get d "_id"). split; [exact Hl|apply sub_refl]. }
+      subst r. destruct (hides_id pr); [|exact Hs1]. apply sub_remove_first; assumption.
+  Qed.
+
+  (* in terms of reads: a value found in the result at a key path is
+     contained in the stored value there, and equal to it unless it is an
+     embedded document (which may have lost fields) *)
+  Theorem projected_reads_are_stored d pr r q :
+    plain_projection pr -> nodup_keys (VDoc d) = true -> Proj d pr = Ok r ->
+    kpath_str q = true -> is_missing (Get r q) = false ->
+    sub (Get r q) (Get d q) /\ ((forall f, Get r q <> VDoc f) -> Get r q = Get d q).
+  Proof.
+    intros Hpp Hnd H Hk Hm. pose proof (projected_values_are_stored _ _ _ Hpp Hnd H) as Hs.
+    rewrite (Get_kpath r q Hk), (Get_kpath d q Hk) in *.
+    pose proof (sub_dget _ _ (split_path q) Hs Hm) as Hq.
+    split; [exact Hq|]. intro Hl. exact (sub_leaf _ _ Hq Hl).
+  Qed.
 End WithMatch.
